@@ -575,6 +575,8 @@ class Interp:
             return self.exec_while(st, state, rel)
         if isinstance(st, ast.For):
             return self.exec_for(st, state, rel)
+        if isinstance(st, ast.Try):
+            return self.exec_try(st, state, rel)
         if isinstance(st, ast.Break):
             return [(state, ("break",))]
         if isinstance(st, ast.Continue):
@@ -637,6 +639,59 @@ class Interp:
                 state.effects.append(("mutates-input", core.src(target)))
             return
         state.effects.append(("assign-unmodelled", core.src(target)))
+
+    # -- try / except ---------------------------------------------------------------
+    _EXC_PARENTS = {"KeyError": "LookupError", "IndexError": "LookupError", "ZeroDivisionError": "ArithmeticError", "OverflowError": "ArithmeticError",
+                    "UnicodeError": "ValueError", "FloatingPointError": "ArithmeticError"}
+
+    def _handler_matches(self, h: ast.ExceptHandler, exc: Any) -> Optional[bool]:
+        """True / False, or None when the analysis cannot tell which exception classes the handler names"""
+        if h.type is None:
+            return True
+        names = []
+        for t in (h.type.elts if isinstance(h.type, ast.Tuple) else [h.type]):
+            if not isinstance(t, ast.Name):
+                return None
+            names.append(t.id)
+        kind = exc.kind if isinstance(exc, ExcV) else "Exception"
+        chain = [kind]
+        while chain[-1] in self._EXC_PARENTS:
+            chain.append(self._EXC_PARENTS[chain[-1]])
+        chain += ["Exception", "BaseException"]
+        if any(n in chain for n in names):
+            return True
+        known = {"ValueError", "TypeError", "KeyError", "IndexError", "LookupError", "ZeroDivisionError", "ArithmeticError", "OverflowError",
+                 "AttributeError", "RuntimeError", "StopIteration", "AssertionError", "NotImplementedError", "RecursionError", "Exception", "BaseException"}
+        return False if all(n in known for n in names) and kind in known else None
+
+    def exec_try(self, st: ast.Try, state: State, rel: str):
+        outs = []
+        for s2, sig in self.exec_block(st.body, state, rel):
+            if sig is not None and sig[0] == "raise":
+                handled = False
+                for h in st.handlers:
+                    m = self._handler_matches(h, sig[1])
+                    if m is None:
+                        raise _Unmodelled(f"except clause `{core.src(h.type)}` at {core.loc(rel, h)}")
+                    if m:
+                        if h.name:
+                            s2.env[h.name] = sig[1]
+                        outs.extend(self.exec_block(h.body, s2, rel))
+                        handled = True
+                        break
+                if not handled:
+                    outs.append((s2, sig))
+            elif sig is None and st.orelse:
+                outs.extend(self.exec_block(st.orelse, s2, rel))
+            else:
+                outs.append((s2, sig))
+        if not st.finalbody:
+            return outs
+        final = []
+        for s2, sig in outs:
+            for s3, sig3 in self.exec_block(st.finalbody, s2, rel):
+                final.append((s3, sig3 if sig3 is not None else sig))
+        return final
 
     # -- loops ----------------------------------------------------------------------
     def exec_while(self, st: ast.While, state: State, rel: str):
